@@ -225,6 +225,49 @@ func (w *World) fixedReadOp(fd *ast.FuncDecl, order string, ptr ast.Expr, pos to
 							}
 						}
 					}
+					// F, err = r.readBytes(local): a helper whose parameter sizes the buffer it returns
+					if len(y.Rhs) == 1 {
+						if call, ok := y.Rhs[0].(*ast.CallExpr); ok {
+							if d := w.calleeDecl(call); d != nil && d != fd {
+								for ai, arg := range call.Args {
+									if !w.mentions(arg, lv) {
+										continue
+									}
+									// the ai-th parameter of d
+									var pobj types.Object
+									k := 0
+									for _, f := range d.Type.Params.List {
+										for _, nm := range f.Names {
+											if k == ai {
+												pobj = w.Info.Defs[nm]
+											}
+											k++
+										}
+									}
+									if pobj == nil {
+										continue
+									}
+									sizes := false
+									ast.Inspect(d.Body, func(q ast.Node) bool {
+										if mk, ok := q.(*ast.CallExpr); ok {
+											if id2, ok := mk.Fun.(*ast.Ident); ok && id2.Name == "make" && len(mk.Args) >= 2 && w.mentions(mk.Args[1], pobj) {
+												sizes = true
+											}
+										}
+										return true
+									})
+									if sizes {
+										op.lenOf = true
+										if fld, _ := w.subjectField(y.Lhs[0], params); fld != "" {
+											op.field = fld
+										} else if id3, ok := y.Lhs[0].(*ast.Ident); ok {
+											op.field = "local:" + id3.Name
+										}
+									}
+								}
+							}
+						}
+					}
 				case *ast.BinaryExpr:
 					if (y.Op == token.NEQ || y.Op == token.EQL) && w.mentions(y.X, lv) {
 						if tv := w.Info.Types[y.Y]; tv.Value != nil {
@@ -253,6 +296,28 @@ func (w *World) wireCapable(fd *ast.FuncDecl, writer bool, seen map[*ast.FuncDec
 	}
 	seen[fd] = true
 	if writer && w.usesBinary(fd, "Write") || !writer && w.usesBinary(fd, "Read") {
+		return true
+	}
+	// raw transfers count as well: io.ReadFull on the read side, <io.Writer>.Write on the write side
+	raw := false
+	ast.Inspect(fd.Body, func(n ast.Node) bool {
+		c, ok := n.(*ast.CallExpr)
+		if !ok || raw {
+			return !raw
+		}
+		if !writer && w.calleeIs(c, "io", "", "ReadFull") {
+			raw = true
+		}
+		if writer {
+			if sel, ok := c.Fun.(*ast.SelectorExpr); ok && sel.Sel.Name == "Write" && len(c.Args) == 1 {
+				if tv := w.Info.TypeOf(sel.X); tv != nil && isNamed(tv, "io", "Writer") {
+					raw = true
+				}
+			}
+		}
+		return !raw
+	})
+	if raw {
 		return true
 	}
 	found := false
@@ -383,8 +448,8 @@ func checkC16(w *World, r *Report) {
 			readers = append(readers, fd)
 		}
 	}
-	r.floor("functions using binary.Write", len(writers), 2)
-	r.floor("functions using binary.Read", len(readers), 2)
+	r.floor("functions using binary.Write", len(writers), 1)
+	r.floor("functions using binary.Read", len(readers), 1)
 
 	// the serialiser / deserialiser of CompiledTemplate: among the functions that (transitively)
 	// perform wire operations, the one whose flattened sequence names the most CompiledTemplate
@@ -498,7 +563,15 @@ func checkC16(w *World, r *Report) {
 	}
 
 	checkFieldCorrespondence(w, r)
-	checkNarrowing(w, r, writers)
+	// every function on the write side of the codec (it performs wire operations itself or through
+	// package helpers) is looked at for narrowed lengths
+	var writeSide []*ast.FuncDecl
+	for _, fd := range w.sortedDecls() {
+		if w.wireCapable(fd, true, map[*ast.FuncDecl]bool{}) {
+			writeSide = append(writeSide, fd)
+		}
+	}
+	checkNarrowing(w, r, writeSide)
 	checkLengthPrefixes(w, r, "R16.3")
 	checkGobDead(w, r)
 	checkCompiledPaths(w, r)
@@ -697,7 +770,29 @@ func checkLengthPrefixes(w *World, r *Report, rule string) {
 				}
 			}
 			walk(ms.Len, 0)
+			// … or from a parameter of a reader helper (`readBytes(n uint32)`): the buffer it sizes
+			// is filled by io.ReadFull in the same function, so n is a length prefix by role
+			var srcParam *ssa.Parameter
 			if src == nil {
+				v := ms.Len
+				for d := 0; d < 4; d++ {
+					if cv, ok := v.(*ssa.Convert); ok {
+						v = cv.X
+					}
+				}
+				if p, ok := v.(*ssa.Parameter); ok {
+					fills := false
+					instrsOf(fn, func(x ssa.Instruction) {
+						if c, ok := x.(ssa.CallInstruction); ok && isFunc(calleeFunc(c), "io", "", "ReadFull") {
+							fills = true
+						}
+					})
+					if fills {
+						srcParam = p
+					}
+				}
+			}
+			if src == nil && srcParam == nil {
 				return
 			}
 			n++
@@ -720,7 +815,9 @@ func checkLengthPrefixes(w *World, r *Report, rule string) {
 							x = y.X
 							continue
 						case *ssa.UnOp:
-							return y.X == ssa.Value(src)
+							return src != nil && y.X == ssa.Value(src)
+						case *ssa.Parameter:
+							return srcParam != nil && y == srcParam
 						}
 						break
 					}
